@@ -22,6 +22,7 @@ from ..selftest import Twin
 from ._engine import CL, CL_REL, RUNNER, branch_for, command_constructions, list_position, param, published_event_class
 
 EXPLANATION = __doc__.split("\n\n", 1)[1]
+TECHNIQUE = 'static analysis: command-list position/dominance pairing of exit commands with terminal events, stream-consumer CFG, user-code containment (exception edges)'
 TRUSTED = ["CPython ast", "asyncio.Queue FIFO order of the publish queue"]
 
 EXIT = ("CommandCompleteRun", "CommandFailWorkflow", "CommandHalt")
